@@ -688,7 +688,10 @@ class Inliner:
                 rc = s.value if isinstance(s, (ast.Assign, ast.Return)) and isinstance(getattr(s, "value", None), ast.Call) else None
                 if rc is not None and src(rc.func) in me.reduce_names and len(rc.args) == 3 and not rc.keywords and \
                         isinstance(rc.args[0], (ast.Name, ast.Attribute)) and \
-                        (isinstance(s, ast.Return) or (len(s.targets) == 1 and isinstance(s.targets[0], ast.Name))):
+                        (isinstance(s, ast.Return) or (len(s.targets) == 1 and isinstance(s.targets[0], ast.Name))) and \
+                        me.match_call(ast.Call(func=rc.args[0], args=[], keywords=[]), cls, helpers)[0] is not None:
+                    # (only for the repository's own new helpers / closures: a reduction by a library function such as np.maximum
+                    # stays a reduction, which the summariser reads directly)
                     me.counter += 1
                     acc, kv = "__acc%d" % me.counter, "__k%d" % me.counter
                     init = ast.Assign(targets=[ast.Name(id=acc, ctx=ast.Store())], value=rc.args[2])
